@@ -604,6 +604,13 @@ impl TextResource {
             self.beginaligned_cursor(&offset.begin)?,
             self.beginaligned_cursor(&offset.end)?,
         );
+        if end < begin {
+            return Err(StamError::InvalidOffset(
+                offset.begin,
+                offset.end,
+                "End must be greater than begin",
+            ));
+        }
         let mut handle: Option<TextSelectionHandle> = None;
         if let Some(beginitem) = self.positionindex.0.get(&begin) {
             for (end2, gothandle) in beginitem.begin2end.iter() {
